@@ -5,13 +5,15 @@
     interleaving, the three ring modes (default, single issuer, kernel thread), every size of
     the submission queue and any number of unrelated entries in it (a [wake] that finds the
     queue full enters the kernel and tries again; safety only: the termination of that loop is
-    not claimed, a retrying waker counts as "inside its call").
+    not claimed, a retrying waker counts as "inside its call"). The poller's [io_uring_enter] can
+    be interrupted by a signal at any time (event [PI]: at the call, or while blocked).
     Property theorems only; model in Model/Wake.v, proofs in Proofs/WakeProofs.v. *)
 From A10 Require Import Base.Word Base.Run Gen.Consts Model.Wake Proofs.WakeProofs.
 
 (** On every schedule the scheduler / kernel can produce (a blocked poller is resumed only when
-    something arrived; "stuck" is reported only when the poller is blocked, both queues are
-    empty and every waker has finished) the poller is never stuck while a wake-up is owed. *)
+    something arrived or a signal interrupts it; a signal can interrupt the poller's enter
+    anywhere; "stuck" is reported only when the poller is blocked, both queues are empty and
+    every waker has finished) the poller is never stuck while a wake-up is owed. *)
 Theorem C11_no_lost_ring_wakeup : no_lost_ring_wakeup.
 Proof. exact no_lost_ring_wakeup_holds. Qed.
 
@@ -37,6 +39,23 @@ Proof. exact pending_message_has_a_submitter_holds. Qed.
 Theorem C11_owed_poller_is_resumable_or_a_waker_is_running :
   owed_poller_is_resumable_or_a_waker_is_running.
 Proof. exact owed_poller_is_resumable_or_a_waker_is_running_holds. Qed.
+
+(** An interrupted [io_uring_enter] (EINTR at the call, or a signal while blocked) makes the poll
+    return: from there on, whatever the wakers do and whatever else happens, the poller never
+    blocks before the poll in progress has returned, and it returns within 9 poller steps (6
+    when the call failed with EINTR). *)
+Theorem C11_interrupted_enter_makes_poll_return : interrupted_enter_makes_poll_return.
+Proof. exact interrupted_enter_makes_poll_return_holds. Qed.
+
+(** The ghost "a wake-up is owed" is cleared by a poll return and by nothing else that changes
+    the number of polls left. *)
+Theorem C11_poll_return_clears_owed : poll_return_clears_owed.
+Proof. exact poll_return_clears_owed_holds. Qed.
+
+(** NOT the code as it is (seeded change C11-e): a [Completions::poll] that waits again after
+    EINTR loses the wake-up made before the poll started. *)
+Theorem C11_eintr_retry_loses_wakeup_refuted : eintr_retry_loses_wakeup.
+Proof. exact eintr_retry_loses_wakeup_refuted. Qed.
 
 (** Documentation, not a violation: under the stricter reading "a wake targets a poll that is
     inside the kernel, else the next to start" this schedule ends with the second poll blocked
@@ -86,13 +105,68 @@ Check (C11_owed_poller_is_resumable_or_a_waker_is_running :
     pp s = PInKernel -> owed s = true ->
       0 < cq s \/ (md s = KernelThread /\ sqh s + sqo s < sqt s)
       \/ exists i w, nth_error (wakers s) i = Some w /\ wp w <> WIdle).
+Check C11_interrupted_enter_makes_poll_return : interrupted_enter_makes_poll_return.
+Check C11_poll_return_clears_owed : poll_return_clears_owed.
+Check C11_eintr_retry_loses_wakeup_refuted : eintr_retry_loses_wakeup.
+Check (C11_interrupted_enter_makes_poll_return :
+  forall s n es,
+    (pp s = PEnterT \/ pp s = PEnterFlags \/ pp s = PInKernel) -> polls s = S n ->
+    let s0 := fst (step s PI) in
+    ((pp s = PEnterT \/ pp s = PEnterFlags) -> pp s0 = PClearPollingIntr /\ polls s0 = S n)
+    /\ (let s1 := fst (run step s0 es) in
+        (polls s1 <= n)%nat
+        \/ (polls s1 = S n /\ pp s1 <> PInKernel
+            /\ exists d, ret_dist (pp s1) = Some d /\ (d + poller_events es <= 9)%nat))).
+Check (C11_poll_return_clears_owed :
+  forall s e, polls (fst (step s e)) <> polls s -> owed (fst (step s e)) = false).
+Check (C11_eintr_retry_loses_wakeup_refuted :
+  exists es,
+    valid_loop (init Default 8 0 1 [1%nat]) es
+    /\ nth_error es 0 = Some (W 0) /\ nth_error es 5 = Some PI
+    /\ (let s := fst (run step_loop (init Default 8 0 1 [1%nat]) (firstn 5 es)) in
+        pp s = PEnterT /\ aw s = true /\ owed s = true)
+    /\ (let s := fst (run step_loop (init Default 8 0 1 [1%nat]) es) in
+        pp s = PInKernel /\ polls s = 1%nat /\ aw s = false /\ pstate s = IS_POLLING
+        /\ cq s = 0 /\ sqh s = sqt s /\ all_wakers_finished s
+        /\ owed s = true /\ ev_ok s Stuck
+        /\ lost (fst (step_loop s Stuck)) = true)).
 (* the schedule predicate, pinned *)
 Check (eq_refl : ev_ok = fun s e =>
   match e with
   | P => pp s = PInKernel -> (0 < cq s \/ (md s = KernelThread /\ sqh s < sqt s))
   | W i => (i < length (wakers s))%nat
   | Stuck => pp s = PInKernel /\ cq s = 0 /\ sqh s = sqt s /\ all_wakers_finished s
+  | PI => True
   end).
+(* the events and the step function, pinned: [PI] is the interrupted enter *)
+Check (eq_refl : step = fun s e =>
+  match e with
+  | P => (pstep s, [])
+  | W i => (wstep s i, [])
+  | Stuck => (match pp s with PInKernel => pstuck s | _ => s end, [])
+  | PI => (pintr s, [])
+  end).
+Check (eq_refl : pintr = fun s =>
+  match pp s with
+  | PEnterT => set_p (syscall_submit s (sqt s - lh s)) PClearPollingIntr
+  | PEnterFlags => set_p (syscall_submit s 0) PClearPollingIntr
+  | PInKernel =>
+      let s' := match md s with KernelThread => consume_all s | _ => s end in
+      if 0 <? cq s' then after_enter_ok s'
+      else if psub s =? 0 then set_p s' PClearPollingIntr
+      else after_enter_ok s'
+  | _ => pstep s
+  end).
+Check (eq_refl : ret_dist = fun p =>
+  match p with
+  | PWbH => Some 9%nat | PWbT => Some 8%nat | PWbTry => Some 7%nat
+  | PClearPolling | PClearPollingIntr => Some 6%nat
+  | PLoadCqT2 => Some 5%nat | PStoreHead => Some 4%nat
+  | PEndWbH => Some 3%nat | PEndWbT => Some 2%nat | PEndWbTry => Some 1%nat
+  | _ => None
+  end).
+Check (valid_loop_nil : forall s, valid_loop s []).
+Check (valid_loop_cons : forall s e es, ev_ok s e -> valid_loop (fst (step_loop s e)) es -> valid_loop s (e :: es)).
 Check (eq_refl : all_wakers_finished = fun s =>
   Forall (fun w => wp w = WIdle /\ calls w = O) (wakers s)).
 Check (valid_nil : forall s, valid s []).
@@ -102,12 +176,23 @@ Check (wake_example_default : blocked_then_woken Default wake_schedule_default 5
 Check (wake_example_kthread : blocked_then_woken KernelThread wake_schedule_kthread 4).
 Check (wake_example_single : blocked_then_woken SingleIssuer wake_schedule_single 5).
 Check wake_example_queue_full.
+Check (eintr_example_default : interrupted_then_returns Default).
+Check (eintr_example_single : interrupted_then_returns SingleIssuer).
+Check eintr_example_kthread.
+Check eintr_example_blocked.
 Print Assumptions C11_no_lost_ring_wakeup.
 Print Assumptions C11_wake_is_on_its_way.
 Print Assumptions C11_awoken_bit_makes_next_poll_prompt.
 Print Assumptions C11_pending_message_has_a_submitter.
 Print Assumptions C11_owed_poller_is_resumable_or_a_waker_is_running.
 Print Assumptions C11_strict_target_reading_refuted.
+Print Assumptions C11_interrupted_enter_makes_poll_return.
+Print Assumptions C11_poll_return_clears_owed.
+Print Assumptions C11_eintr_retry_loses_wakeup_refuted.
+Print Assumptions eintr_example_default.
+Print Assumptions eintr_example_single.
+Print Assumptions eintr_example_kthread.
+Print Assumptions eintr_example_blocked.
 Print Assumptions wake_example_default.
 Print Assumptions wake_example_kthread.
 Print Assumptions wake_example_single.
